@@ -1502,6 +1502,26 @@ def check_C08(tier, seed):
             ch = gen.default_choices()
             ch["zlevels"] = [zl_]
             out.append((noisy, gen.encode(noisy, ch, rng)))
+        # a tileset of more than 65536 pixels (300 tiles of 16 x 16, each tile its own colour) in the three pixel formats, with a tilemap
+        # cel that never uses tile 0 and one that does
+        for depth in (32, 16, 8):
+            for lowest in (5, 0):
+                ntl, tl = 300, 16
+                pal = {k: ((k * 9) & 255, (k * 5 + 1) & 255, (255 - k) & 255, 255 if k else 0, None) for k in range(256)} if depth == 8 else None
+                def tp(t):
+                    return (t & 255, t >> 8, 77, 255) if depth == 32 else (((t * 3) & 255, 255) if depth == 16 else (1 + t % 255))
+                pixels = [((0, 0, 0, 0) if depth == 32 else ((0, 0) if depth == 16 else 0))] * (tl * tl)
+                for t in range(1, ntl):
+                    pixels += [tp(t)] * (tl * tl)
+                tiles = [lowest + ((x * 7 + y * 13) % (ntl - lowest)) for y in range(3) for x in range(4)]
+                tiles[5] = lowest
+                sp_ = {"width": 64, "height": 48, "depth": depth, "transparent": 0, "durations": [100], "speed": 100,
+                       "palette_chunks": [("new", 0, [pal[k] for k in range(256)])] if pal else [], "palette": pal, "sprite_ud": None, "ext_files": [],
+                       "tilesets": [{"id": 0, "count": ntl, "tw": tl, "th": tl, "base": 1, "name": "large", "ext": None, "empty0": True, "pixels": pixels}],
+                       "layers": [{"flags": 1, "ltype": 2, "level": 0, "blend": 0, "opacity": 255, "name": "m", "tileset": 0, "ud": None, "default_w": 0, "default_h": 0}],
+                       "cels": {(0, 0): {"kind": "tilemap", "x": 0, "y": 0, "w": 4, "h": 3, "opacity": 255, "tiles": tiles, "ud": None}},
+                       "tags": [], "has_tags_chunk": False, "slices": []}
+                out.append((sp_, gen.encode(sp_, None, rng)))
         # tiles that start beyond coordinate 32767
         for vertical in (False, True):
             fs = far_tilemap_sprite(rng, vertical)
@@ -2436,7 +2456,8 @@ def blend_tilemap_image(mode: int, rng: random.Random):
     cols, rows = rng.randint(2, 5), rng.randint(2, 5)
     W, H = tw * cols, th * rows
     nt = rng.randint(2, 6)
-    lo, co = rng.choice([(255, 255), (255, 255), (255, 255), (200, 255), (255, 90), (rng.randrange(256), rng.randrange(256))])
+    # (opacity products that round to zero - a zero byte, or 9 x 14 = 126 < 128 - leave the backdrop unchanged, in every build)
+    lo, co = rng.choice([(255, 255), (255, 255), (200, 255), (255, 90), (0, 255), (255, 0), (9, 14), (rng.randrange(256), rng.randrange(256))])
     tiles_px = [(0, 0, 0, 0)] * (tw * th)      # tile 0: the empty tile
     for t in range(1, nt):
         style = rng.choice(["opaque", "mixed", "mixed"])
@@ -2909,7 +2930,7 @@ def check_C10(tier: str, seed: int) -> int:
                {"text": None, "color": None}, {"text": "", "color": None},
                {"text": "p", "color": (9, 8, 7, 6), "flags": 7, "tail": ase.u32(12) + ase.u32(0) + ase.u32(0)},
                {"text": "q", "color": None, "flags": 0x80000001}, {"text": None, "color": (1, 1, 1, 1), "flags": 6, "tail": ase.u32(8) + ase.u32(0)},
-               {"text": "r", "color": None, "flags": 5, "tail": b"\1\2\3"}]
+               {"text": "r", "color": None, "flags": 5, "tail": b"\1\2\3"}, {"text": "key=1\0", "color": None}, {"text": "\0\0", "color": (0, 0, 0, 0)}]
         cases = []
         nseq = 0
         for n in range(1, maxlen + 1):
@@ -2917,7 +2938,7 @@ def check_C10(tier: str, seed: int) -> int:
                 nseq += 1
                 if "ud" not in seq:
                     continue
-                prog = c10_program(list(seq), uds[nseq % 9:] + uds[:nseq % 9])
+                prog = c10_program(list(seq), uds[nseq % len(uds):] + uds[:nseq % len(uds)])
                 if prog is None:
                     continue
                 cases.append((list(seq), prog))
